@@ -189,4 +189,40 @@ PROPS.update({
                    "level_note": "Symbolic secrecy, not computational: scrypt/secretbox are idealised (a box opens only under its key). Log "
                                  "output of packages other than the wallet is covered by the byte scan only. Trusted: Lean kernel; the "
                                  "harness's classifier."}),
+    "C07": {
+        "props": ["MassVerif.Props.C07"], "drivers_mod": ["MassVerif.Driver.Plot"],
+        "harnesses": [{"name": "plot", "pkg": "harness/plot", "driver": "MassVerif/Driver/Plot.lean",
+                       "quick": {"n": 9, "focus": "C07"}, "thorough": {"n": 60, "focus": "C07"}, "search": {"n": 30, "focus": "C07"}}],
+        "level_text": "Unbounded proof (Lean 4) over a model of both plotting passes as write sequences applied window by window: for every list "
+                      "of window sizes (any amount of memory, any number of windows) a completed pass leaves exactly the last-writer table of its "
+                      "write sequence; hence the completed plot equals the construction (specB) for every cache-size schedule of both passes; "
+                      "every stored entry is a pair of map-A partners with FB = its position (sound) and every constructible prefix has an entry "
+                      "(complete); enough non-empty windows always terminate. P and FB are arbitrary functions. Correspondence: the real "
+                      "massdb.v1 plotter at bit lengths 8-12 with forced cache sizes (hook H1) vs the Lean model on the same P/FB tables and "
+                      "window sizes, all 2^bl entries compared; oracle = independent computation from pocutil.",
+        "level_note": "Trusted: Lean kernel; mass-core's P/FB/VerifyProof (parameters); bit lengths >= 24 (consensus sizes) exercise the same "
+                      "code with 3-byte records and are not plotted by the check; GetProof re-verifies with poc.VerifyProof (library).",
+        "trusted_base": ["pocutil.P / pocutil.FB (MASS-SHA256) and poc.VerifyProof of mass-core: parameters — the theorems hold for all their values; the harness feeds their values to the model",
+                          "OS/filesystem: Sync makes preceding writes durable; a crash may persist any subset of unsynced block writes (modelled: arbitrary content at or above the checkpoint)"],
+        "assumptions": ["hand-written model Model/Plot.lean; agreement with plot.go checked by the correspondence stream on every run",
+                        "x = 0 is the all-zero record (never stored), as in the code"],
+    },
+    "C10": {
+        "props": ["MassVerif.Props.C10"], "drivers_mod": ["MassVerif.Driver.Plot"],
+        "harnesses": [{"name": "plotresume", "pkg": "harness/plot", "driver": "MassVerif/Driver/Plot.lean",
+                       "quick": {"n": 3, "focus": "C10"}, "thorough": {"n": 30, "focus": "C10"}, "search": {"n": 8, "focus": "C10"}, "timeout": 3000}],
+        "level_text": "Unbounded proof (Lean 4): the resumption invariant (every position below the stored checkpoint holds its final value) "
+                      "is established by a fresh map, preserved by every completed window and by anything a crash may do at or above the "
+                      "checkpoint (unsynced data present, absent or torn); from any such state, after any number of interruptions and with any "
+                      "window sizes, a run that completes yields the uninterrupted table, terminates when windows are non-empty (as coded: "
+                      "cache >= 2 resp. 4 records; pre-plot checkpoints stay even), and a space reporting plotted holds the complete table; "
+                      "kernel-checked counterexample for the old checkpoint rule (start+1). Correspondence = crash-point enumeration on the "
+                      "real plotter: every named point (hook H2) of both passes and every window is snapshotted and resumed with other cache "
+                      "sizes, plus graceful stops; each resumed image is also run through the Lean model.",
+        "level_note": "Trusted: as C07. Torn writes are modelled at the granularity of the WriteAt calls the code issues.",
+        "trusted_base": ["pocutil.P / pocutil.FB (MASS-SHA256) and poc.VerifyProof of mass-core: parameters — the theorems hold for all their values; the harness feeds their values to the model",
+                          "OS/filesystem: Sync makes preceding writes durable; a crash may persist any subset of unsynced block writes (modelled: arbitrary content at or above the checkpoint)"],
+        "assumptions": ["hand-written model; correspondence on every run", "crash images are taken at the named points (all writes so far present); "
+                        "the theorem additionally covers any loss of unsynced writes"],
+    },
 })
